@@ -19,14 +19,19 @@ import WntrModel.Model.Metrics
 namespace Wntr.Metrics
 
 /-- named inputs; the translator derives the name from the source (parameter / attribute name in camelCase,
-`head.loc[:, link.start_node_name]` ↦ `headStart`, `link.get_head_curve_coefficients()[0]` ↦ `curveA`) -/
+`link.get_head_curve_coefficients()[0]` ↦ `curveA`) -/
 inductive Var where
-  | demand | head | pressure | elevation | flowrate | headStart | headEnd | expectedDemand
+  | demand | head | pressure | elevation | flowrate | expectedDemand
   | level | maxLevel | minLevel | diameter | volCurve | length | power | valveType
   | energyPrice | energyPattern | efficiency | energy | curveA | curveB | curveC
   | pop | arg1 | arg2 | averageExpectedDemand
   | Pstar | R | globalEfficiency | globalPrice | globalPattern | demandCharge | reportTimestep | pi
   | ts | patternStart | demandMultiplier
+  deriving DecidableEq, Repr
+
+/-- which node of the current LINK a node table is read at: `head.loc[:, link.start_node_name]` ↦ `.at .head .startNode` -/
+inductive Key where
+  | startNode | endNode
   deriving DecidableEq, Repr
 
 /-- the index sets a sum ranges over (`wn.junction_name_list`, `wn.pumps()`, `wn.nodes(Tank)`, …) -/
@@ -68,6 +73,7 @@ inductive MExpr where
   | const (r : Rat)
   | var (v : Var)               -- input of the current row (element, at the current time)
   | gvar (v : Var)              -- scalar input (parameter / option)
+  | at (v : Var) (k : Key)      -- node table `v` at the start / end node of the current row's link
   | add (a b : MExpr)
   | sub (a b : MExpr)
   | mul (a b : MExpr)
@@ -88,6 +94,7 @@ inductive MExpr where
 
 structure Row where
   num : Var → Rat := fun _ => 0
+  link : Var → Key → Rat := fun _ _ => 0
   none : Var → Bool := fun _ => false
   str : Var → String := fun _ => ""
   f1 : Fn1 → Rat → Rat := fun _ x => x
@@ -115,6 +122,7 @@ def eval (env : Env) (row : Row) : MExpr → Rat
   | .const r => r
   | .var v => row.num v
   | .gvar v => env.glob.num v
+  | .at v k => row.link v k
   | .add a b => eval env row a + eval env row b
   | .sub a b => eval env row a - eval env row b
   | .mul a b => eval env row a * eval env row b
@@ -138,6 +146,7 @@ def ok (env : Env) (row : Row) : MExpr → Bool
   | .const _ => true
   | .var _ => true
   | .gvar _ => true
+  | .at _ _ => true
   | .add a b => ok env row a && ok env row b
   | .sub a b => ok env row a && ok env row b
   | .mul a b => ok env row a && ok env row b
